@@ -36,6 +36,11 @@ def refs(kind):
          [Let([('q', N('n'))], [V('q')])]]
     if kind != 'tmpl':
         r.append([If([(X('n'), [T('xyes')])], [T('xno')]), Let([('q', X('n'))], [P('q')])])
+        # through the namespace object inside expressions: _['n'] and _.getitem('n', 1) call, _.getitem('n', 0) does not,
+        # _.has_key('n') only searches, _.render(n) renders like a tag
+        r.append([Vx(Item('n')), T(','), Vx(Get1('n')), T(','), Let([('q', Get0('n'))], [P('q')]), T(','), Vx(Render('n'))])
+        r.append([If([(HasKey('n'), [T('has:'), Vx(Item('n'))])], [T('hasnot')]), If([(HasKey('nowhere'), [T('?')])], [T('no')]),
+                  Let([('q', Item('n')), ('r', Render('n'))], [V('q'), V('r')])])
     else:
         r = r[:2]
     return r
